@@ -2,6 +2,7 @@
    projection, exactly-once / no-residue, and the sampling theorems. *)
 From Coq Require Import Lia.
 From MT Require Import Types Tracer.
+Arguments gated : simpl never.
 
 (* ---------- association lists ---------- *)
 Lemma lookup_remove_eq {A} f (l : list (N * A)) : lookup f (remove f l) = None.
@@ -22,7 +23,10 @@ Proof. intros Hn. unfold update. cbn. rewrite Hn. apply lookup_remove_neq. exact
 Lemma handle_call_order_modelled :
   tr_handle_call_steps = ["sample"; "lookup"; "unresolved_return"; "resumed_return"; "argnames"; "bind"; "store"]%string.
 Proof. reflexivity. Qed.
-Lemma call_gates_modelled : tr_call_gates = ["unsupported_event"; "trace_types"; "filter_rejects"]%string.
+Lemma call_gates_modelled : tr_call_gates = ["unsupported_event"; "filter_rejects"]%string.
+Proof. reflexivity. Qed.
+(* with today's gates: a call is gated iff the code filter rejects its code object, whatever its name *)
+Lemma gated_iff_rejected c : gated c = negb (c_admit c).
 Proof. reflexivity. Qed.
 
 Lemma is_yield_op_iff op : is_op tr_yield_ops op = String.eqb op op_yield.
@@ -402,7 +406,7 @@ Lemma pf_run_unsampled rate es :
 Proof.
   intros Hs. induction es as [|e r IH]; intros Hn; [reflexivity|]. cbn in Hn. apply andb_prop in Hn. destruct Hn as [He Hr].
   destruct e as [g c args d|g c sm op a|g c]; cbn [pf_run pf_step].
-  - unfold skipped_by_sampling. rewrite Hs, He. cbn. destruct (gated c); rewrite (IH Hr); reflexivity.
+  - unfold skipped_by_sampling. rewrite Hs, He. cbn [andb]. destruct (gated c); rewrite (IH Hr); reflexivity.
   - destruct (gated c); rewrite (IH Hr); reflexivity.
   - rewrite (IH Hr). reflexivity.
 Qed.
